@@ -162,11 +162,14 @@ class HitranCiaGrid(Logger):
             Master temperature grid
 
         """
+        # Range covered by the temperatures actually tabulated for this grid
+        # (the zero-filled ones added below must not widen it)
+        t_lo, t_hi = min(self.temperature), max(self.temperature)
         for t in temperatures:
             if t in self.temperature:
                 continue
             self.debug('Tempurature %s, %s', t)
-            if t < min(self.temperature) or t > max(self.temperature):
+            if t < t_lo or t > t_hi:
                 self.add_temperature(t, np.zeros_like(self.wn))
             else:
                 indicies = self.find_closest_temperature_index(t)
